@@ -26,6 +26,9 @@ func doCfgs(minN, maxN int) []obs.Cfg {
 			for _, rv := range []bool{false, true} {
 				cs = append(cs, obs.Cfg{Comb: "do", Items: []int{}, Fail: fail, Rv: rv})
 			}
+			if n >= 3 { // ring of n: f0 waits for the last function, everyone for its predecessor
+				cs = append(cs, obs.Cfg{Comb: "do", Items: []int{}, Fail: append([]int{}, fail...), Ring: true})
+			}
 		}
 	}
 	return cs
@@ -39,7 +42,7 @@ func checkC20(c *core.Ctx) error {
 	p := &plan{prop: "C20", procs: nprocs(), logRuns: 40, logLines: 700}
 	maxN := 4
 	p.cfgs = doCfgs(2, maxN)
-	p.mc = []mcRun{{name: fmt.Sprintf("do: 2..%d functions x every failing subset x rendezvous on/off", maxN), cfgText: doMC(maxN), workers: 1}}
+	p.mc = []mcRun{{name: fmt.Sprintf("do: 2..%d functions x every failing subset x {independent, star rendezvous, ring}", maxN), cfgText: doMC(maxN), workers: 1}}
 	p.simCfg = simCfg(`"do"`, maxN, 0, 0)
 	p.nSim = 300
 	p.stress = 4
@@ -53,7 +56,7 @@ func checkC20(c *core.Ctx) error {
 	if err := runPlan(c, p); err != nil {
 		return err
 	}
-	c.Set("rule", "every interleaving (at the grain of spec/conc/GoChan.tla) of the real generated deriveDo with 2..4 functions, every failing subset, functions with and without mutual rendezvous; non-trivial = configurations with more than 30 distinct abstract states")
+	c.Set("rule", "every interleaving (at the grain of spec/conc/GoChan.tla) of the real generated deriveDo with 2..4 functions, every failing subset, functions independent, in a star rendezvous (f0 waits for every later function) or in a ring (f0 waits for the last); non-trivial = configurations with more than 30 distinct abstract states")
 	c.Assume("the AST rewriter (channel/go/WaitGroup operations -> vsched calls) preserves the generated code's behaviour; cross-checked against the unrewritten program on the real runtime")
 	c.Assume("reads and writes of the result variables v_i are not scheduling points: their ordering is checked through the values Do returns under every schedule, the happens-before invariant of Do.tla, and the Go race detector on the unrewritten code")
 	return nil
